@@ -8,6 +8,7 @@ import time
 import traceback
 
 from . import common
+from . import textnoise
 from .common import Result, Rng, log
 
 
@@ -124,6 +125,10 @@ def main(argv=None):
     seed = common.seed_from_env()
     ctx = Ctx(pid, args.tier, seed)
     res = Result(pid, args.tier, seed)
+    if pid in textnoise.PIDS and not os.environ.get("VERIF_NO_TEXTNOISE"):
+        # cross-cutting input dimension: semantics-preserving comments / blank lines / trailing blanks on the texts
+        # this property's streams hand to parse_jaqal_string (harness/textnoise.py)
+        textnoise.install()
     try:
         prop = load_prop(pid)
     except ModuleNotFoundError:
@@ -157,6 +162,8 @@ def main(argv=None):
             common.write_evidence(res, 0)
             return 2
 
+    if textnoise.installed:
+        res.extra["text_noise"] = dict(textnoise.stats)
     known, new = classify(prop, res)
     # report each known finding once
     seen = set()
